@@ -92,10 +92,65 @@ def compare(ctx, a, b, what, case):
     return True
 
 
+def edit_cart(rng, g, ctx):
+    """Edits through the section APIs between two saves of the same Game object."""
+    for _ in range(rng.randint(1, 6)):
+        k = rng.randrange(7)
+        try:
+            if k == 0:
+                g.map.set_cell(rng.randrange(128), rng.randrange(32, 64), rng.randrange(256))
+                ctx.feature('edit_map_lower_half')
+            elif k == 1:
+                g.map.set_cell(rng.randrange(128), rng.randrange(32), rng.randrange(256))
+            elif k == 2:
+                g.gfx.set_sprite(rng.randrange(256), [[rng.randrange(16) for _ in range(8)] for _ in range(8)])
+            elif k == 3:
+                g.map.set_rect_tiles([[rng.randrange(256) for _ in range(rng.randint(1, 8))] for _ in range(rng.randint(1, 4))],
+                                     rng.randrange(100), rng.randrange(28, 60))
+                ctx.feature('edit_map_lower_half')
+            elif k == 4:
+                g.gff.set_flags(rng.randrange(256), rng.randrange(256))
+            elif k == 5:
+                g.sfx.set_note(rng.randrange(64), rng.randrange(32), pitch=rng.randrange(64), waveform=rng.randrange(8),
+                               volume=rng.randrange(8), effect=rng.randrange(8))
+            else:
+                g.write_cart_data(carts.random_bytes(rng, rng.randint(1, 64)), rng.randrange(0x4200))
+        except Exception:
+            ctx.feature('edit_rejected_by_api')
+
+
+class Verbosity:
+    """Runs a block with picotool's verbosity level set and its message streams captured; restores both."""
+
+    def __init__(self, level):
+        self.level = level
+
+    def __enter__(self):
+        from pico8 import util
+        self.saved = (util._verbosity, util._write_stream, util._error_stream)
+        util._write_stream = io.StringIO()
+        util._error_stream = io.StringIO()
+        util.set_verbosity({'quiet': util.VERBOSITY_QUIET, 'normal': util.VERBOSITY_NORMAL, 'debug': util.VERBOSITY_DEBUG}[self.level])
+        return self
+
+    def __exit__(self, *a):
+        from pico8 import util
+        util._verbosity, util._write_stream, util._error_stream = self.saved
+        return False
+
+
 def one_cart(ctx, rng, workdir):
+    verbosity = rng.choice(('normal', 'normal', 'quiet', 'debug', 'debug'))
+    ctx.feature('verbosity_' + verbosity)
+    with Verbosity(verbosity):
+        _one_cart(ctx, rng, workdir, verbosity)
+
+
+def _one_cart(ctx, rng, workdir, verbosity):
     from pico8.game.formatter.p8 import P8Formatter
     from pico8.game import file as p8file
     from pico8 import tool
+    from pico8.lua.lua import Lua
     regions, mode = carts.random_regions(rng)
     label = None
     if rng.random() < 0.5:
@@ -103,7 +158,10 @@ def one_cart(ctx, rng, workdir):
     version = rng.choice((0, 1, 8, 33, 41, 2 ** 31, rng.randrange(2 ** 31)))
     code = make_code(rng, ctx)
     entry = rng.choice(('stream', 'stream', 'path', 'cli'))
-    case = {'regions': regions, 'label': label, 'version': version, 'code': code, 'entry': entry}
+    foreign_lua = rng.random() < 0.25
+    resave = entry != 'cli' and rng.random() < 0.35
+    case = {'regions': regions, 'label': label, 'version': version, 'code': code, 'entry': entry, 'verbosity': verbosity,
+            'foreign_lua': foreign_lua}
     nontrivial = bool(code) or any(any(v) for v in regions.values())
     ctx.case((rc.join_memory(regions), label, version, code), nontrivial=nontrivial)
     ctx.feature('regions_' + mode)
@@ -117,6 +175,30 @@ def one_cart(ctx, rng, workdir):
     except Exception as e:
         ctx.inconclusive_because('generator produced code picotool does not lex: %r %r' % (e, code[:80]))
         return
+    if foreign_lua:
+        # the cart's version and the version its code object was made for are independent attributes (a version-0 cart whose code
+        # was replaced with Lua.from_lines(..., version=DEFAULT) as the build tool does): the file carries the cart's version
+        try:
+            g.lua = Lua.from_lines([code], version=rng.choice((33, 8, 41, 0)))
+            ctx.feature('code_object_of_another_version')
+            if version == 0:
+                ctx.feature('version0_cart_with_foreign_code_object')
+        except Exception as e:
+            ctx.inconclusive_because('generator produced code picotool does not lex: %r' % (e,))
+            return
+    if resave:
+        # HISTORY: the same Game object was saved before, then edited through the APIs, and is saved again
+        try:
+            P8Formatter.to_file(g, io.BytesIO())
+            if rng.random() < 0.5:
+                list(g.gfx.to_lines())
+                list(g.map.to_lines())
+        except Exception as e:
+            ctx.violation('first save raised %r' % (e,), case)
+            return
+        edit_cart(rng, g, ctx)
+        ctx.feature('saved_edited_saved_again')
+        case['history'] = 'saved, edited through the APIs, saved again (replay rebuilds only the final state)'
     a = observables(g)
     try:
         if entry == 'stream':
@@ -139,7 +221,7 @@ def one_cart(ctx, rng, workdir):
             p1 = os.path.join(workdir, 'c.p8')
             p8file.to_file(g, p1)
             data1 = open(p1, 'rb').read()
-            rcode = tool.main(['-q', 'writep8', p1])
+            rcode = tool.main({'quiet': ['-q'], 'debug': ['--debug'], 'normal': []}[verbosity] + ['writep8', p1])
             if rcode != 0:
                 ctx.violation('p8tool writep8 returned %r' % rcode, case)
                 return
@@ -187,17 +269,13 @@ def run_shard(spec, ctx):
 
 
 def replay(case, ctx):
-    workdir = tempfile.mkdtemp(prefix='vf-c03-')
-    try:
-        class R:
-            """Replays the recorded choices."""
-        import random as _r
-
-        class Fixed(_r.Random):
-            pass
-        # simplest faithful replay: rebuild the cart and run the stream entry (all entries share the formatter)
-        from pico8.game.formatter.p8 import P8Formatter
+    # rebuild the cart and run the stream entry (all entries share the formatter) under the recorded verbosity
+    from pico8.game.formatter.p8 import P8Formatter
+    from pico8.lua.lua import Lua
+    with Verbosity(case.get('verbosity', 'normal')):
         g = carts.make_game(case['regions'], code=case['code'], version=case['version'], label=case['label'])
+        if case.get('foreign_lua'):
+            g.lua = Lua.from_lines([case['code']], version=33 if case['version'] != 33 else 8)
         a = observables(g)
         buf = io.BytesIO()
         P8Formatter.to_file(g, buf)
@@ -208,8 +286,6 @@ def replay(case, ctx):
             P8Formatter.to_file(g2, buf2)
             if buf2.getvalue() != buf.getvalue():
                 ctx.violation('second write is not byte-identical', case)
-    finally:
-        shutil.rmtree(workdir, ignore_errors=True)
 
 
 def gates(m, tier):
@@ -219,6 +295,10 @@ def gates(m, tier):
               'label_present', 'label_absent', 'entry_stream', 'entry_path', 'entry_cli', 'regions_uniform', 'regions_sparse',
               'regions_structured', 'regions_zero', 'regions_ff', 'regions_defaultish'):
         if f.get(k, 0) < 5:
+            missed.append('%s seen %d times' % (k, f.get(k, 0)))
+    for k in ('verbosity_debug', 'verbosity_quiet', 'verbosity_normal', 'saved_edited_saved_again', 'edit_map_lower_half',
+              'code_object_of_another_version', 'version0_cart_with_foreign_code_object'):
+        if f.get(k, 0) < 10:
             missed.append('%s seen %d times' % (k, f.get(k, 0)))
     if mon.get('round_trips_observed', 0) < 200 or mon.get('reference_reads_compared', 0) < 200:
         missed.append('too few round trips observed')
